@@ -157,16 +157,34 @@ theorem toF32_sound (c : Constant) (h64 : c.kind ≠ .Int64 ∧ c.kind ≠ .UInt
   cases c <;> simp [toF32, lookup, toF32Table, Constant.kind, Constant.intVal?, Constant.floatBits?, floatFmtOf] at h h64 ⊢ <;>
     simp [S.castScalar] <;> (try (split at h <;> simp_all)) <;> (try simp_all [c13])
 
-/-- **not complete** (a defect of the pinned source, recorded as a known finding): an untyped float literal and a
-negative `int` — both convertible to `float` — are refused -/
-theorem toF32_refuses_float_literal (bits : Nat) :
-    toF32 (.floatLit bits) = none ∧ (S.castScalar .Float32 (.floatLit bits)).isSome = true := by
-  simp [toF32, lookup, toF32Table, Constant.kind, S.castScalar]
+/-- **`Constant::to_f32`** on the 32-bit kinds *is* the HLSL conversion to `float`: defined exactly where the
+conversion is (bool, untyped integer and float literals, `int` of either sign, `uint`, `half`, `float`, `double`),
+with the same bit pattern -/
+theorem toF32_spec (c : Constant) (h : wf c = true) (h64 : c.kind ≠ .Int64 ∧ c.kind ≠ .UInt64) (b : Nat) :
+    toF32 c = some b ↔ S.castScalar .Float32 c = some (.float32 b) := by
+  cases c <;> simp [toF32, lookup, toF32Table, Constant.kind, Constant.intVal?, Constant.floatBits?, floatFmtOf,
+    S.castScalar] at h64 ⊢ <;>
+    (try (simp [wf, IntTy.inRange, IntTy.lo, IntTy.hi, i128] at h)) <;>
+    (try (split <;> simp_all)) <;> (try simp_all [c13]) <;> (try omega)
 
-theorem toF32_refuses_negative_int (v : Int) (hv : v < 0) :
-    toF32 (.int32 v) = none ∧ (S.castScalar .Float32 (.int32 v)).isSome = true := by
-  have : ¬ (0 ≤ v) := by omega
-  simp [toF32, lookup, toF32Table, Constant.kind, Constant.intVal?, S.castScalar, this]
+/-- complete: every constant the HLSL rules convert to `float` is accepted with the converted value — an untyped float
+literal and a negative `int` included -/
+theorem toF32_complete (c : Constant) (h : wf c = true) (b : Nat) (hc : S.castScalar .Float32 c = some (.float32 b)) :
+    toF32 c = some b := by
+  have h64 : c.kind ≠ .Int64 ∧ c.kind ≠ .UInt64 := by
+    cases c <;> simp [S.castScalar, Constant.kind] at hc ⊢
+  exact (toF32_spec c h h64 b).2 hc
+
+/-- a refusal is justified: the constant has no conversion to `float` (an enum, a string) -/
+theorem toF32_none (c : Constant) (h : wf c = true) (hn : toF32 c = none) : S.castScalar .Float32 c = none := by
+  cases hc : S.castScalar .Float32 c with
+  | none => rfl
+  | some v =>
+    have : ∃ b, v = .float32 b := by
+      cases c <;> simp [S.castScalar] at hc <;> exact ⟨_, hc.symm⟩
+    obtain ⟨b, rfl⟩ := this
+    rw [toF32_complete c h b hc] at hn
+    cases hn
 
 /-! ## positions that keep the constant -/
 
